@@ -32,6 +32,7 @@ func Shrink(p *Prop, t *trace.Trace, sig, dir string) (*trace.Trace, int) {
 			return false
 		}
 		execs++
+		TouchProgress()
 		return hasSig(p, c, sig, dir)
 	}
 	cur := t.Clone()
